@@ -605,3 +605,390 @@ VARIANTS += [
       edits=rev_stage() + [(V, '''	if outcome.VerificationLevel.Enforcement[trustpolicy.TypeRevocation] != trustpolicy.ActionSkip &&
 		!slices.Contains(pluginCapabilities, pluginframework.CapabilityRevocationCheckVerifier) {''', '''	if outcome.VerificationLevel.Enforcement[trustpolicy.TypeRevocation] != trustpolicy.ActionSkip {''')]),
 ]
+
+# ==== second pass: classes of rewrite met in the held-out batch ============================================================
+import re as _re
+
+# ---- class "result object": the lookup helper hands back ONE struct value instead of several results
+def struct_helper(helper=LOOKUP_HELPER, order=('name', 'installed', 'capabilities'), tname='signaturePlugin'):
+    h = helper.replace('(string, pluginframework.VerifyPlugin, []pluginframework.Capability, error) {', '(%s, error) {' % tname)
+    h = h.replace('return "", nil, nil, ', 'return %s{}, ' % tname)
+    h = sub(h, 'return verificationPluginName, installedPlugin, pluginCapabilities, nil\n',
+            'return %s{name: verificationPluginName, installed: installedPlugin, capabilities: pluginCapabilities}, nil\n' % tname)
+    fields = dict(name='\tname         string\n', installed='\tinstalled    pluginframework.VerifyPlugin\n', capabilities='\tcapabilities []pluginframework.Capability\n')
+    return 'type %s struct {\n%s}\n\n' % (tname, ''.join(fields[f] for f in order)) + h
+
+STRUCT_CALL = '''	// check if we need to verify using a plugin
+	sigPlugin, err := v.lookupVerificationPlugin(ctx, &outcome.EnvelopeContent.SignerInfo, pluginConfig)
+	if err != nil {
+		return err
+	}
+'''
+def struct_uses(text):
+    return (text.replace('pluginCapabilities', 'sigPlugin.capabilities').replace('installedPlugin', 'sigPlugin.installed')
+                .replace('verificationPluginName', 'sigPlugin.name'))
+
+# everything of processSignature behind the lookup block that names one of the three locals
+_SRC_V = open('/repo/' + V).read()
+_TAIL_A = _SRC_V.index('\t// verify x509 trust store based authenticity\n')
+_TAIL_B = _SRC_V.index('func (v *verifier) verifyRevocation(')
+OLD_TAIL = _SRC_V[_TAIL_A:_TAIL_B]
+assert OLD_LOOKUP in _SRC_V and _SRC_V.index(OLD_LOOKUP) < _TAIL_A
+
+def struct_shape(helper=None, call=STRUCT_CALL, tail=None, more=()):
+    helper = helper if helper is not None else struct_helper()
+    tail = tail if tail is not None else struct_uses(OLD_TAIL)
+    return [(V, OLD_LOOKUP, call), (V, OLD_TAIL, tail + helper)] + list(more)
+
+# the request list: the declared list as it is unless the level skips revocation (guard-clause tail of refactoring C02-1)
+OLD_REQ_BLOCK = '''		var capabilitiesToVerify []pluginframework.Capability
+		for _, pc := range pluginCapabilities {
+			// skip the revocation capability if the trust policy is configured
+			// to skip it
+			if outcome.VerificationLevel.Enforcement[trustpolicy.TypeRevocation] == trustpolicy.ActionSkip && pc == pluginframework.CapabilityRevocationCheckVerifier {
+				logger.Debugf("Skipping the %v validation", pc)
+				continue
+			}
+			capabilitiesToVerify = append(capabilitiesToVerify, pc)
+		}
+'''
+assert OLD_REQ_BLOCK in _SRC_V
+REUSE_REQ_BLOCK = '''		capabilitiesToVerify := pluginCapabilities
+		if outcome.VerificationLevel.Enforcement[trustpolicy.TypeRevocation] == trustpolicy.ActionSkip {
+			capabilitiesToVerify = nil
+			for _, pc := range pluginCapabilities {
+				if pc == pluginframework.CapabilityRevocationCheckVerifier {
+					logger.Debugf("Skipping the %v validation", pc)
+					continue
+				}
+				capabilitiesToVerify = append(capabilitiesToVerify, pc)
+			}
+		}
+'''
+REUSE_SELECT_HELPER = '''func selectCapabilitiesToVerify(logger log.Logger, pluginCapabilities []pluginframework.Capability, verificationLevel *trustpolicy.VerificationLevel) []pluginframework.Capability {
+	if verificationLevel.Enforcement[trustpolicy.TypeRevocation] != trustpolicy.ActionSkip {
+		// nothing to leave out
+		return pluginCapabilities
+	}
+	var capabilitiesToVerify []pluginframework.Capability
+	for _, pc := range pluginCapabilities {
+		if pc == pluginframework.CapabilityRevocationCheckVerifier {
+			logger.Debugf("Skipping the %v validation", pc)
+			continue
+		}
+		capabilitiesToVerify = append(capabilitiesToVerify, pc)
+	}
+	return capabilitiesToVerify
+}
+
+'''
+
+VARIANTS += [
+ dict(name='benign-lookup-result-struct', expect='silent', edits=struct_shape(),
+      why='the lookup helper returns one struct value {name, installed, capabilities}; the processing function reads its fields (held-out refactoring C02-1)'),
+ dict(name='benign-lookup-result-struct-other-field-order', expect='silent',
+      edits=struct_shape(helper=struct_helper(order=('capabilities', 'name', 'installed'), tname='pluginLookup')),
+      why='same, fields declared in another order, another type name'),
+ dict(name='benign-lookup-result-struct-nested-form', expect='silent', edits=struct_shape(helper=struct_helper(helper=LOOKUP_HELPER_NESTED)),
+      why='result struct + the name test as a nesting if instead of a guard clause'),
+ dict(name='benign-lookup-result-struct-and-helpers', expect='silent',
+      edits=struct_shape(tail=struct_uses(sub(sub(OLD_TAIL, OLD_REQUEST_LOOP, NEW_REQUEST), OLD_CRITICAL_LOOP, NEW_CRITICAL)),
+                         helper=struct_helper() + SELECT_HELPER + REJECT_HELPER),
+      why='result struct + request filter and critical-attribute rejection in helpers fed from the struct fields'),
+ dict(name='benign-lookup-result-struct-assembled-fieldwise', expect='silent',
+      edits=struct_shape(helper=sub(struct_helper(), '\treturn signaturePlugin{name: verificationPluginName, installed: installedPlugin, capabilities: pluginCapabilities}, nil\n',
+                                    '\tvar found signaturePlugin\n\tfound.name = verificationPluginName\n\tfound.installed = installedPlugin\n\tfound.capabilities = pluginCapabilities\n\treturn found, nil\n')),
+      why='the result object is filled field by field, each field once, before the return'),
+ dict(name='lookup-result-struct-plugin-dropped', expect='flagged(plugin/lookup-results)',
+      edits=struct_shape(helper=sub(struct_helper(), 'installed: installedPlugin, ', '')),
+      why='a plugin is named and found but the result object carries none: it is never executed'),
+ dict(name='lookup-result-struct-plugin-set-conditionally', expect='flagged(plugin/lookup-results)',
+      edits=struct_shape(helper=sub(struct_helper(), '\treturn signaturePlugin{name: verificationPluginName, installed: installedPlugin, capabilities: pluginCapabilities}, nil\n',
+                                    '\tfound := signaturePlugin{name: verificationPluginName, capabilities: pluginCapabilities}\n\tif len(pluginCapabilities) > 1 {\n\t\tfound.installed = installedPlugin\n\t}\n\treturn found, nil\n')),
+      why='the plugin object is put into the result object on some paths only'),
+ dict(name='lookup-result-struct-capabilities-without-plugin', expect='flagged(plugin/lookup-results)',
+      edits=struct_shape(helper=sub(struct_helper(), '\t\treturn signaturePlugin{}, nil\n', '\t\treturn signaturePlugin{capabilities: []pluginframework.Capability{pluginframework.CapabilityTrustedIdentityVerifier}}, nil\n')),
+      why='no plugin named, yet the native identity check is routed away'),
+ dict(name='lookup-result-struct-unfiltered-capabilities', expect='flagged(routing/declared-capabilities)',
+      edits=struct_shape(helper=sub(struct_helper(), 'capabilities: pluginCapabilities}, nil', 'capabilities: metadata.Capabilities}, nil'))),
+ dict(name='lookup-result-struct-capabilities-overwritten', expect='flagged(routing/declared-capabilities)',
+      edits=struct_shape(call=STRUCT_CALL + '\tif pluginConfig == nil {\n\t\tsigPlugin.capabilities = nil\n\t}\n'),
+      why='the processing function empties the capability list of the result object on some paths: the declared capabilities no longer decide the routing'),
+ dict(name='lookup-result-struct-error-dropped', expect='flagged(plugin/lookup-error)',
+      edits=struct_shape(call=sub(STRUCT_CALL, 'sigPlugin, err := v.lookup', 'sigPlugin, _ := v.lookup').replace('\tif err != nil {\n\t\treturn err\n\t}\n', ''))),
+ dict(name='lookup-result-struct-get-error-ignored', expect='flagged(plugin/get-error)',
+      edits=struct_shape(helper=sub(struct_helper(), 'Get(ctx, verificationPluginName)\n\tif err != nil {', 'Get(ctx, verificationPluginName)\n\tif err != nil && installedPlugin == nil {'))),
+ dict(name='lookup-result-struct-F8a-reintroduced', expect='flagged(critical-attr-accounting/no-plugin-named)',
+      edits=struct_shape(tail=struct_uses(sub(OLD_TAIL, '\tif installedPlugin == nil {\n\t\t// the signature does not name', '\tif installedPlugin == nil && len(trustedIdentities) == 0 {\n\t\t// the signature does not name'))),
+      why='with no plugin named the critical-attribute loop is skipped on some paths'),
+ # the request list reuses the declared list where nothing has to be left out
+ dict(name='benign-request-reuses-declared-list-unless-skip', expect='silent', file=V, find=OLD_REQ_BLOCK, replace=REUSE_REQ_BLOCK,
+      why='request := declared list; rebuilt without the revocation capability only if the level skips revocation (merged condition split)'),
+ dict(name='benign-request-helper-returns-declared-list-unless-skip', expect='silent', edits=helpers_shape(select=REUSE_SELECT_HELPER),
+      why='the same in a helper: early return of the declared list when the level does not skip revocation'),
+ dict(name='benign-lookup-result-struct-request-reuses-declared-list', expect='silent',
+      edits=struct_shape(tail=struct_uses(sub(OLD_TAIL, OLD_REQ_BLOCK, REUSE_REQ_BLOCK))),
+      why='result struct + reused declared list (both rewrites of held-out refactoring C02-1)'),
+ dict(name='request-reuses-declared-list-under-wrong-action', expect='flagged(routing/request-omits-skipped-revocation)', file=V, find=OLD_REQ_BLOCK,
+      replace=sub(REUSE_REQ_BLOCK, 'Enforcement[trustpolicy.TypeRevocation] == trustpolicy.ActionSkip {', 'Enforcement[trustpolicy.TypeRevocation] == trustpolicy.ActionLog {'),
+      why='the declared list, revocation capability included, is sent as it is when the level skips revocation'),
+ dict(name='request-reuses-declared-list-always', expect='flagged(routing/request-omits-skipped-revocation)', file=V, find=OLD_REQ_BLOCK,
+      replace='\t\tcapabilitiesToVerify := pluginCapabilities\n'),
+ dict(name='request-helper-returns-declared-list-under-skip', expect='flagged(routing/request-omits-skipped-revocation)',
+      edits=helpers_shape(select=sub(REUSE_SELECT_HELPER, 'Enforcement[trustpolicy.TypeRevocation] != trustpolicy.ActionSkip {', 'Enforcement[trustpolicy.TypeRevocation] != trustpolicy.ActionEnforce {'))),
+ dict(name='request-reuse-filter-drops-wrong-capability', expect='flagged(routing/request-omits-skipped-revocation)', file=V, find=OLD_REQ_BLOCK,
+      replace=sub(REUSE_REQ_BLOCK, '\t\t\t\tif pc == pluginframework.CapabilityRevocationCheckVerifier {', '\t\t\t\tif pc == pluginframework.CapabilityTrustedIdentityVerifier {')),
+]
+
+# ---- class "result built by a constructor": every ValidationResult literal becomes newValidationResult(outcome, T, err)
+CTOR = '''func newValidationResult(outcome *notation.VerificationOutcome, validationType trustpolicy.ValidationType, err error) *notation.ValidationResult {
+	return &notation.ValidationResult{
+		Type:   validationType,
+		Action: outcome.VerificationLevel.Enforcement[validationType],
+		Error:  err,
+	}
+}
+
+'''
+CTOR_OTHER_ORDER = '''func newValidationResult(err error, validationType trustpolicy.ValidationType, outcome *notation.VerificationOutcome) *notation.ValidationResult {
+	result := new(notation.ValidationResult)
+	result.Error = err
+	result.Action = outcome.VerificationLevel.Enforcement[validationType]
+	result.Type = validationType
+	return result
+}
+
+'''
+CTOR_LEVEL = '''func newValidationResult(level *trustpolicy.VerificationLevel, validationType trustpolicy.ValidationType, err error) *notation.ValidationResult {
+	return &notation.ValidationResult{
+		Type:   validationType,
+		Action: level.Enforcement[validationType],
+		Error:  err,
+	}
+}
+
+'''
+_LIT = _re.compile(r'&notation\.ValidationResult\{\n(?:\s+Error:\s+(?P<e1>.*),\n)?\s+Type:\s+(?P<t>trustpolicy\.\w+),\n\s+Action:\s+outcome\.VerificationLevel\.Enforcement\[(?P<t2>trustpolicy\.\w+)\],\n(?:\s+Error:\s+(?P<e2>.*),\n)?\s+\}')
+CTOR_ANCHOR = 'func getNonPluginExtendedCriticalAttributes('
+assert CTOR_ANCHOR in open('/repo/' + H).read()
+
+def ctor_shape(ctor=CTOR, fmt='newValidationResult(outcome, %(t)s, %(e)s)', only=None, more=()):
+    """every (or: the k-th, k in only) ValidationResult literal of verifier.go replaced by a constructor call"""
+    edits = []
+    for k, m in enumerate(_LIT.finditer(_SRC_V)):
+        assert m.group('t') == m.group('t2')
+        if only is not None and k not in only:
+            continue
+        edits.append((V, m.group(0), fmt % dict(t=m.group('t'), e=m.group('e1') or m.group('e2') or 'nil')))
+    assert edits
+    return edits + [(H, CTOR_ANCHOR, ctor + CTOR_ANCHOR)] + list(more)
+
+_NLIT = len(list(_LIT.finditer(_SRC_V)))
+assert _NLIT >= 18, _NLIT
+
+# the plugin's revocation verdict: an error local, one constructor call (refactoring C02-2)
+OLD_PLUGIN_REV = '''			var revocationResult *notation.ValidationResult
+			if !pluginResult.Success {
+				revocationResult = &notation.ValidationResult{
+					Error:  fmt.Errorf("revocation check by verification plugin %q failed with reason %q", verificationPluginName, pluginResult.Reason),
+					Type:   trustpolicy.TypeRevocation,
+					Action: outcome.VerificationLevel.Enforcement[trustpolicy.TypeRevocation],
+				}
+			} else {
+				revocationResult = &notation.ValidationResult{
+					Type:   trustpolicy.TypeRevocation,
+					Action: outcome.VerificationLevel.Enforcement[trustpolicy.TypeRevocation],
+				}
+			}
+'''
+assert OLD_PLUGIN_REV in _SRC_V
+NEW_PLUGIN_REV = '''			var revocationErr error
+			if !pluginResult.Success {
+				revocationErr = fmt.Errorf("revocation check by verification plugin %q failed with reason %q", verificationPluginName, pluginResult.Reason)
+			}
+			revocationResult := newValidationResult(outcome, trustpolicy.TypeRevocation, revocationErr)
+'''
+NEW_PLUGIN_REV_LITERAL = '''			var revocationErr error
+			if !pluginResult.Success {
+				revocationErr = fmt.Errorf("revocation check by verification plugin %q failed with reason %q", verificationPluginName, pluginResult.Reason)
+			}
+			revocationResult := &notation.ValidationResult{
+				Error:  revocationErr,
+				Type:   trustpolicy.TypeRevocation,
+				Action: outcome.VerificationLevel.Enforcement[trustpolicy.TypeRevocation],
+			}
+'''
+def plugin_rev_shape(new=NEW_PLUGIN_REV, ctor=CTOR):
+    return [(V, OLD_PLUGIN_REV, new), (H, CTOR_ANCHOR, ctor + CTOR_ANCHOR)]
+
+# the append / log / gate sequence written once: closure, function, append-only helper
+def _seq(r):
+    return '''	outcome.VerificationResults = append(outcome.VerificationResults, %(r)s)
+	logVerificationResult(logger, %(r)s)
+	if isCriticalFailure(%(r)s) {
+		return %(r)s.Error
+	}
+''' % dict(r=r)
+SEQ_AUTH, SEQ_EXP, SEQ_TS = _seq('authenticityResult'), _seq('expiryResult'), _seq('authenticTimestampResult')
+SEQ_REV = _seq('revocationResult').replace('\n\t', '\n\t\t').replace('\toutcome.Verif', '\t\toutcome.Verif', 1)
+for _s in (SEQ_AUTH, SEQ_EXP, SEQ_TS, SEQ_REV):
+    assert _SRC_V.count(_s) == 1, _s
+RECORD_CLOSURE = '''	record := func(result *notation.ValidationResult) error {
+		outcome.VerificationResults = append(outcome.VerificationResults, result)
+		logVerificationResult(logger, result)
+		if isCriticalFailure(result) {
+			return result.Error
+		}
+		return nil
+	}
+
+'''
+RECORD_FUNC = '''func recordResult(logger log.Logger, outcome *notation.VerificationOutcome, result *notation.ValidationResult) error {
+	outcome.VerificationResults = append(outcome.VerificationResults, result)
+	logVerificationResult(logger, result)
+	if isCriticalFailure(result) {
+		return result.Error
+	}
+	return nil
+}
+
+'''
+ADD_FUNC = '''func addResult(logger log.Logger, outcome *notation.VerificationOutcome, result *notation.ValidationResult) {
+	outcome.VerificationResults = append(outcome.VerificationResults, result)
+	logVerificationResult(logger, result)
+}
+
+'''
+LOOKUP_COMMENT = '\t// check if we need to verify using a plugin\n\tvar pluginCapabilities []pluginframework.Capability\n'
+assert _SRC_V.count(LOOKUP_COMMENT) == 1
+def _use(call, r, indent='\t'):
+    return '%sif err := %s; err != nil {\n%s\treturn err\n%s}\n' % (indent, call % r, indent, indent)
+def record_shape(call='record(%s)', decl=(V, LOOKUP_COMMENT, RECORD_CLOSURE + LOOKUP_COMMENT), drop=None, use=_use):
+    ed = [decl]
+    for k, (seq, r, ind) in enumerate([(SEQ_AUTH, 'authenticityResult', '\t'), (SEQ_EXP, 'expiryResult', '\t'), (SEQ_TS, 'authenticTimestampResult', '\t'), (SEQ_REV, 'revocationResult', '\t\t')]):
+        if drop == k:
+            ed.append((V, seq, '%s_ = %s\n' % (ind, call % r)))
+        else:
+            ed.append((V, seq, use(call, r, ind)))
+    return ed
+def _use_add(call, r, indent='\t'):
+    return '%s%s\n%sif isCriticalFailure(%s) {\n%s\treturn %s.Error\n%s}\n' % (indent, call % r, indent, r, indent, r, indent)
+
+# the native revocation check builds its results by a constructor of its own (refactoring C05-1)
+REV_CTOR = '''func newRevocationResult(outcome *notation.VerificationOutcome, err error) *notation.ValidationResult {
+	return &notation.ValidationResult{
+		Type:   trustpolicy.TypeRevocation,
+		Action: outcome.VerificationLevel.Enforcement[trustpolicy.TypeRevocation],
+		Error:  err,
+	}
+}
+
+'''
+def rev_ctor_shape(ctor=REV_CTOR, more=()):
+    a, b = _SRC_V.index('func (v *verifier) verifyRevocation('), _SRC_V.index('func processPluginResponse(')
+    edits = []
+    for m in _LIT.finditer(_SRC_V, a, b):
+        edits.append((V, m.group(0), 'newRevocationResult(outcome, %s)' % (m.group('e1') or m.group('e2') or 'nil')))
+    assert len(edits) == 3
+    return edits + [(V, 'func processPluginResponse(', ctor + 'func processPluginResponse(')] + list(more)
+
+NATIVE_REV_GATE = '!slices.Contains(pluginCapabilities, pluginframework.CapabilityRevocationCheckVerifier) {\n'
+assert _SRC_V.count(NATIVE_REV_GATE) == 1
+
+VARIANTS += [
+ dict(name='benign-results-by-constructor', expect='silent', edits=ctor_shape(),
+      why='every ValidationResult literal replaced by newValidationResult(outcome, T, err) (held-out refactorings C02-2, C01-2)'),
+ dict(name='benign-results-by-constructor-other-parameter-order', expect='silent',
+      edits=ctor_shape(ctor=CTOR_OTHER_ORDER, fmt='newValidationResult(%(e)s, %(t)s, outcome)'),
+      why='same, parameters in another order, the object filled by assignments instead of a literal'),
+ dict(name='benign-results-by-constructor-handed-the-level', expect='silent',
+      edits=ctor_shape(ctor=CTOR_LEVEL, fmt='newValidationResult(outcome.VerificationLevel, %(t)s, %(e)s)'),
+      why='same, the constructor is handed the level instead of the outcome (parameter narrowed)'),
+ dict(name='benign-some-results-by-constructor', expect='silent', edits=ctor_shape(only=(0, 5, 6, 7)),
+      why='constructor used at a few sites only, literals elsewhere'),
+ dict(name='benign-native-revocation-results-by-own-constructor', expect='silent', edits=rev_ctor_shape(),
+      why='verifyRevocation builds its three results by newRevocationResult(outcome, err) (held-out refactoring C05-1)'),
+ dict(name='constructor-looks-up-fixed-type', expect='flagged(pairing/)',
+      edits=ctor_shape(ctor=sub(CTOR, 'Enforcement[validationType]', 'Enforcement[trustpolicy.TypeExpiry]')),
+      why='every result carries the action of the expiry validation'),
+ dict(name='constructor-reads-another-level', expect='flagged(pairing/)',
+      edits=ctor_shape(ctor=sub(CTOR, 'outcome.VerificationLevel.Enforcement[validationType]', 'trustpolicy.LevelPermissive.Enforcement[validationType]'))),
+ dict(name='constructor-handed-another-level', expect='flagged(pairing/)',
+      edits=ctor_shape(ctor=CTOR_LEVEL, fmt='newValidationResult(outcome.VerificationLevel, %(t)s, %(e)s)',
+                       more=[(V, 'newValidationResult(outcome.VerificationLevel, trustpolicy.TypeExpiry, nil)', 'newValidationResult(trustpolicy.LevelAudit, trustpolicy.TypeExpiry, nil)')]),
+      why='one caller hands the constructor a level other than the one in force'),
+ dict(name='constructor-call-with-computed-type', expect='flagged(pairing/)',
+      edits=ctor_shape(more=[(V, 'newValidationResult(outcome, trustpolicy.TypeAuthenticity, err)', 'newValidationResult(outcome, trustpolicy.ValidationType(policyName), err)')]),
+      why='the type of a result is not a constant at one call of the constructor'),
+ dict(name='constructor-swaps-type-for-one-caller', expect='flagged(pairing/)',
+      edits=ctor_shape(ctor=sub(CTOR, '\treturn &notation', '\tkey := validationType\n\tif err != nil {\n\t\tkey = trustpolicy.TypeAuthenticTimestamp\n\t}\n\treturn &notation').replace('Enforcement[validationType]', 'Enforcement[key]')),
+      why='a failed validation is given the action of another type'),
+ dict(name='native-revocation-by-constructor-when-plugin-owns', expect='flagged(routing/revocation)',
+      edits=rev_ctor_shape(more=[(V, NATIVE_REV_GATE, 'pluginConfig != nil {\n')]),
+      why='constructor shape + the native revocation check no longer depends on the plugin capability'),
+ dict(name='results-by-constructor-native-revocation-under-skip', expect='flagged(routing/revocation)',
+      edits=ctor_shape(more=[(V, '\tif outcome.VerificationLevel.Enforcement[trustpolicy.TypeRevocation] != trustpolicy.ActionSkip &&\n\t\t!slices', '\tif outcome.VerificationLevel.Enforcement[trustpolicy.TypeRevocation] != trustpolicy.ActionLog &&\n\t\t!slices')])),
+ # the plugin's verdict kept in an error local
+ dict(name='benign-plugin-revocation-verdict-error-local-constructor', expect='silent', edits=plugin_rev_shape(),
+      why='revocationErr (nil on success) + one constructor call instead of two literals'),
+ dict(name='benign-plugin-revocation-verdict-error-local-literal', expect='silent', file=V, find=OLD_PLUGIN_REV, replace=NEW_PLUGIN_REV_LITERAL,
+      why='revocationErr (nil on success) + one literal'),
+ dict(name='plugin-revocation-verdict-error-local-never-set', expect='flagged(plugin/verdict-revocation)',
+      edits=plugin_rev_shape(new=sub(NEW_PLUGIN_REV, '\t\t\t\trevocationErr = fmt.Errorf(', '\t\t\t\t_ = fmt.Errorf(')),
+      why='a failed revocation verdict of the plugin leaves the error local nil'),
+ dict(name='plugin-revocation-verdict-error-local-set-on-success', expect='flagged(plugin/verdict-revocation)', file=V, find=OLD_PLUGIN_REV,
+      replace=sub(NEW_PLUGIN_REV_LITERAL, '\t\t\tif !pluginResult.Success {', '\t\t\tif pluginResult.Success {'),
+      why='inverted: the error is recorded for a successful verdict, a failed one passes'),
+ dict(name='plugin-revocation-verdict-constructor-drops-error', expect='flagged(plugin/verdict-revocation)',
+      edits=plugin_rev_shape(ctor=sub(CTOR, '\t\tError:  err,\n', '')),
+      why='the constructor does not store the error it is handed'),
+ # the append / log / gate sequence written once
+ dict(name='benign-record-closure', expect='silent', edits=record_shape(),
+      why='closure record(result) error = append, log, gate; callers return its error (held-out refactoring C02-2)'),
+ dict(name='benign-record-function', expect='silent',
+      edits=record_shape(call='recordResult(logger, outcome, %s)', decl=(V, ANCHOR, RECORD_FUNC + ANCHOR)),
+      why='the same as a package-level function'),
+ dict(name='benign-append-helper-gate-in-caller', expect='silent',
+      edits=record_shape(call='addResult(logger, outcome, %s)', decl=(V, ANCHOR, ADD_FUNC + ANCHOR), use=_use_add),
+      why='helper appends and logs; the caller keeps the gate'),
+ dict(name='benign-record-closure-and-constructor', expect='silent', edits=ctor_shape() + record_shape(),
+      why='both rewrites of held-out refactoring C02-2'),
+ dict(name='record-closure-error-dropped', expect='flagged(gated/)', edits=record_shape(drop=1),
+      why='the expiry result is recorded but the closure\'s answer is thrown away: an enforced expiry failure is accepted'),
+ dict(name='record-function-error-dropped', expect='flagged(gated/)',
+      edits=record_shape(call='recordResult(logger, outcome, %s)', decl=(V, ANCHOR, RECORD_FUNC + ANCHOR), drop=3)),
+ dict(name='record-closure-without-gate', expect='flagged(gated/)',
+      edits=record_shape(decl=(V, LOOKUP_COMMENT, sub(RECORD_CLOSURE, '\t\tif isCriticalFailure(result) {\n\t\t\treturn result.Error\n\t\t}\n', '') + LOOKUP_COMMENT)),
+      why='the closure appends and logs but never reports a critical failure'),
+ dict(name='record-closure-gates-on-wrong-condition', expect='flagged(gated/)',
+      edits=record_shape(decl=(V, LOOKUP_COMMENT, sub(RECORD_CLOSURE, '\t\tif isCriticalFailure(result) {', '\t\tif isCriticalFailure(result) && len(outcome.VerificationResults) > 2 {') + LOOKUP_COMMENT))),
+ dict(name='append-helper-caller-gate-dropped', expect='flagged(gated/)',
+      edits=record_shape(call='addResult(logger, outcome, %s)', decl=(V, ANCHOR, ADD_FUNC + ANCHOR),
+                         use=lambda call, r, ind='\t': (ind + call % r + '\n') if r == 'authenticTimestampResult' else _use_add(call, r, ind)),
+      why='the authentic-timestamp result is appended by the helper and never gated'),
+]
+
+# ---- the result object handed back by pointer
+def ptr_helper(helper=None, tname='signaturePlugin'):
+    h = helper if helper is not None else struct_helper(tname=tname)
+    h = h.replace('(%s, error) {' % tname, '(*%s, error) {' % tname)
+    h = h.replace('return %s{}, nil' % tname, 'return &%s{}, nil' % tname)   # no plugin named: an empty object
+    h = h.replace('return %s{}, ' % tname, 'return nil, ')                     # failures
+    h = h.replace('return %s{name:' % tname, 'return &%s{name:' % tname)
+    return h
+VARIANTS += [
+ dict(name='benign-lookup-result-object-by-pointer', expect='silent', edits=struct_shape(helper=ptr_helper()),
+      why='the lookup helper returns *signaturePlugin (an empty object when no plugin is named); the fields are written at construction only'),
+ dict(name='benign-lookup-result-object-by-pointer-request-reuses-declared-list', expect='silent',
+      edits=struct_shape(helper=ptr_helper(), tail=struct_uses(sub(OLD_TAIL, OLD_REQ_BLOCK, REUSE_REQ_BLOCK)))),
+ dict(name='lookup-result-object-by-pointer-plugin-dropped', expect='flagged(plugin/lookup-results)',
+      edits=struct_shape(helper=sub(ptr_helper(), 'installed: installedPlugin, ', ''))),
+ dict(name='lookup-result-object-by-pointer-capabilities-rewritten-later', expect='flagged(plugin/lookup-results)',
+      edits=struct_shape(helper=ptr_helper(), call=STRUCT_CALL + '\tif pluginConfig == nil {\n\t\tsigPlugin.capabilities = nil\n\t}\n'),
+      why='the object is modified after it left its constructor: reads of its fields no longer say what the constructor stored'),
+ dict(name='lookup-result-object-by-pointer-plugin-cleared-elsewhere', expect='flagged(plugin/lookup-results)',
+      edits=struct_shape(helper=ptr_helper() + 'func forgetPlugin(p *signaturePlugin) {\n\tp.installed = nil\n}\n\nvar _ = forgetPlugin\n\n'),
+      why='some function of the module writes the plugin field of such objects: the test `installed == nil` is no longer known to mean "no plugin named"'),
+ dict(name='lookup-result-object-by-pointer-unfiltered-capabilities', expect='flagged(routing/declared-capabilities)',
+      edits=struct_shape(helper=sub(ptr_helper(), 'capabilities: pluginCapabilities}, nil', 'capabilities: metadata.Capabilities}, nil'))),
+]
